@@ -1024,6 +1024,27 @@ type WALMark struct {
 	c1, c2 uint32
 }
 
+// WriteTornFrame writes only the 24-byte header of one more frame (the writer is interrupted between the two writes
+// SQLite issues per frame): the log then ends inside a frame. Nothing of the pager's state advances.
+func (p *Pager) WriteTornFrame(f WALFrameSpec) error {
+	db, o := p.DB, p.Owner
+	wf, err := db.OpenWAL(ctx)
+	if err != nil {
+		return err
+	}
+	defer wf.Close()
+	off := int64(32) + int64(p.walFrames)*int64(24+p.PageSize)
+	h := make([]byte, 24)
+	binary.BigEndian.PutUint32(h[0:], f.Pgno)
+	binary.BigEndian.PutUint32(h[8:], p.walSalt1)
+	binary.BigEndian.PutUint32(h[12:], p.walSalt2)
+	c1, c2 := walChecksum(p.bo(), p.walCk1, p.walCk2, h[:8])
+	c1, c2 = walChecksum(p.bo(), c1, c2, f.Data)
+	binary.BigEndian.PutUint32(h[16:], c1)
+	binary.BigEndian.PutUint32(h[20:], c2)
+	return db.WriteWALAt(ctx, wf, h, off, o)
+}
+
 // DropPending forgets the frames written since the last commit (the transaction rolls back).
 func (p *Pager) DropPending() { p.pending, p.pendingCommit = nil, 0 }
 
